@@ -295,3 +295,40 @@ def maxdiff(a, b):
     d = np.where(a == b, 0.0, d)         # equal infinities are equal
     m = float(d.max())
     return m if m == m else float("inf")
+
+
+def bystander_history(rng, t, d=None, n=None):
+    """A history of *non-mutating* public operations on the live transform t (results discarded): composing it, out of
+    place, with members of other classes, taking its pseudoinverse, copying it, applying it, reading its vector.  None of
+    these is documented to change t, so whatever is done with t afterwards must be as if they had never happened.
+    Returns the names of the operations that ran."""
+    import menpo.transform as mt
+    done = []
+    if d is None:
+        d = in_dim(t, 2)
+    h = getattr(t, "h_matrix", None)
+    for _ in range(int(rng.integers(1, 4)) if n is None else n):
+        k = int(rng.integers(0, 7))
+        try:
+            if k <= 2 and h is not None and h.shape == (d + 1, d + 1):
+                other = [lambda: mt.Translation(rng.uniform(-6, 6, d)), lambda: mt.UniformScale(float(rng.uniform(0.5, 2.0)), d),
+                         lambda: mt.NonUniformScale(rng.uniform(0.5, 2.0, d)), lambda: gen.transform(rng, "Affine", d),
+                         lambda: mt.Rotation(gen.rotation_matrix(rng, d))][int(rng.integers(0, 5))]()
+                if k == 0:
+                    t.compose_before(other); done.append("compose_before")
+                elif k == 1:
+                    t.compose_after(other); done.append("compose_after")
+                else:
+                    other.compose_before(t); other.compose_after(t); done.append("composed_by_another")
+            elif k == 3:
+                if getattr(t, "has_true_inverse", False):
+                    t.pseudoinverse(); done.append("pseudoinverse")
+            elif k == 4:
+                t.copy(); done.append("copy")
+            elif k == 5:
+                safe_apply(t, probe(rng, d, n=5)); done.append("apply")
+            elif hasattr(t, "as_vector"):
+                t.as_vector(); done.append("as_vector")
+        except Exception:
+            pass
+    return done
